@@ -24,7 +24,7 @@ const SUBSET: &[(&str, &[&str])] = &[
     ("RXParamSetupReq", &[]),
     ("DevStatusAns", &["set_battery"]),
     ("TXParamSetupReq", &["set_downlink_dwell_time", "set_uplink_dwell_time", "set_max_eirp"]),
-    ("DeviceTimeAns", &["set_nano_seconds"]),
+    ("DeviceTimeAns", &["set_seconds", "set_nano_seconds"]),
 ];
 
 fn is_self(e: &Expr) -> bool {
@@ -66,6 +66,33 @@ fn unchain(sig: &mut Signature, body: &mut Block) -> Res<()> {
         }
         _ => Err("unsupported setter return type".into()),
     }
+}
+
+/// `self.data[a..b].copy_from_slice(x);` → `let mut dcopy = self.data; dcopy[a..b].copy_from_slice(x); self.data = dcopy;`
+/// (the function translator knows `copy_from_slice` on a local array only; `data` is an array, so the copy is by value)
+fn field_copy(body: &mut Block) {
+    let mut out: Vec<Stmt> = vec![];
+    for st in body.stmts.drain(..) {
+        if let Stmt::Expr(Expr::MethodCall(mc), Some(_)) = &st {
+            if mc.method == "copy_from_slice" {
+                if let Expr::Index(ix) = &*mc.receiver {
+                    if let Expr::Field(f) = &*ix.expr {
+                        if is_self(&f.base) {
+                            let field = &f.member;
+                            let idx = &ix.index;
+                            let args = &mc.args;
+                            out.push(parse_quote!(let mut dcopy = self.#field;));
+                            out.push(parse_quote!(dcopy[#idx].copy_from_slice(#args);));
+                            out.push(parse_quote!(self.#field = dcopy;));
+                            continue;
+                        }
+                    }
+                }
+            }
+        }
+        out.push(st);
+    }
+    body.stmts = out;
 }
 
 pub fn creators(files: &[File], _n: &[String], reg: &mut Registry, out: &mut String) -> Res<()> {
@@ -111,6 +138,7 @@ pub fn creators(files: &[File], _n: &[String], reg: &mut Registry, out: &mut Str
             let mut sig = sig.clone();
             let mut body = body.clone();
             unchain(&mut sig, &mut body).map_err(|er| format!("{}::{}: {}", cname, f, er))?;
+            field_copy(&mut body);
             emit_fn(reg, out, Some(&cname), f, &sig, &body)?;
         }
     }
